@@ -67,6 +67,8 @@ type obs struct {
 	closeErr    string
 	isESearch   bool
 	maxDepthObs int
+
+	shortLiterals []string
 }
 
 func (o *obs) note(format string, a ...interface{}) {
@@ -296,7 +298,11 @@ func (o *obs) readLiteral(site string, lit imap.LiteralReader) {
 		if size < 0 {
 			o.viol("malformed-literal-delivered:negative-size", fmt.Sprintf("%s: literal with Size()=%d delivered", site, size))
 		} else if err == io.EOF && total != size {
-			o.viol("malformed-literal-delivered:size-mismatch", fmt.Sprintf("%s: Size()=%d but %d bytes read to EOF", site, size, total))
+			// a literal is streamed, so a short one can only be reported afterwards: it is a
+			// violation when nothing (Close/Wait) reports an error either — decided in settle()
+			o.mu.Lock()
+			o.shortLiterals = append(o.shortLiterals, fmt.Sprintf("%s: Size()=%d but %d bytes read to a clean io.EOF", site, size, total))
+			o.mu.Unlock()
 		}
 	})
 }
@@ -723,6 +729,7 @@ func runVariant(input []byte, variant int, verbose, enumHuge bool) *obs {
 			o.readerPanic(err)
 		})
 		conn.waitDrained()
+		o.closeClient(c)
 		o.finish(c, conn)
 		o.settle(base)
 		return o
@@ -771,11 +778,7 @@ func runVariant(input []byte, variant int, verbose, enumHuge bool) *obs {
 	conn.feed(input)
 	conn.feedEOF()
 	conn.waitDrained()
-	var cerr error
-	o.try("Client.Close", func() { cerr = c.Close() })
-	o.closeErr = errStr(cerr)
-	o.note("Client.Close() = %v", o.closeErr)
-	o.readerPanic(cerr)
+	o.closeClient(c)
 	wg.Wait()
 	for _, f := range after {
 		f()
@@ -783,6 +786,14 @@ func runVariant(input []byte, variant int, verbose, enumHuge bool) *obs {
 	o.finish(c, conn)
 	o.settle(base)
 	return o
+}
+
+func (o *obs) closeClient(c *imapclient.Client) {
+	var cerr error
+	o.try("Client.Close", func() { cerr = c.Close() })
+	o.closeErr = errStr(cerr)
+	o.note("Client.Close() = %v", o.closeErr)
+	o.readerPanic(cerr)
 }
 
 func (o *obs) settle(base int) {
@@ -793,6 +804,9 @@ func (o *obs) settle(base int) {
 		o.note("goroutines did not return to the baseline (%d > %d)", runtime.NumGoroutine(), base)
 	}
 	o.provenance()
+	if len(o.shortLiterals) > 0 && o.closeErr == "<nil>" {
+		o.viol("malformed-literal-delivered:size-mismatch", o.shortLiterals[0]+", and Client.Close() reports no error")
+	}
 }
 
 func (o *obs) finish(c *imapclient.Client, conn *fakeConn) {
